@@ -37,6 +37,8 @@ func propC17(c *Check) {
 	c.Rule("R2", "the verifier's literal expectations (script length, version opcode, push opcode) match the address kind the builder returns")
 	c.Rule("R3", "key/version matrix: version 1 builder and verifier both require an ECDSA key; version 0 handles ECDSA and Schnorr in both; the query dispatches versions exactly as deposit verification does")
 	c.Rule("R4", "DecodeBtcAddress: every success passes DecodeAddress(addr, net), IsForNet(net), the pay-to-pubkey rejection and PayToAddrScript; callers pass the configured network with a nil guard")
+	c.Rule("R5", "what the node hands out is a function of the committed state and the request: no process-local state in the keepers the address query reads (C07/R3) — a remembered address outlives the key it was derived from")
+	c.Depend("R5", "C07", propC07, map[string]bool{"R3": true}, "an address served from node-local memory is not the one deposit verification derives from the current key")
 
 	g0 := p.MustFn("x/bitcoin/types.DepositAddressV0")
 	g1 := p.MustFn("x/bitcoin/types.DepositAddressV1")
